@@ -124,11 +124,12 @@ def phase_of(frame) -> str:
     while f is not None:
         names.append((os.path.basename(f.f_code.co_filename), f.f_code.co_name))
         f = f.f_back
+    # only public names decide the phase, so that private helpers can be renamed freely
     if any(n == "rtf_encode" for _f, n in names):
         return "encode"
-    if any(fn == "convert.py" and n in ("convert", "_convert_single_file") for fn, n in names):
+    if any(n == "convert" for _f, n in names):
         return "convert"
-    if any(fn == "convert.py" for fn, _n in names):
+    if any(n == "__init__" and fn == "convert.py" for fn, n in names) or any(fn == "convert.py" for fn, _n in names):
         return "ctor"
     return "entry"
 
